@@ -77,7 +77,6 @@ typedef struct {
     McCase samples[3];
     int incomplete;
     int cur_failed, cur_nontrivial;
-    char known_hit[64];
 } McWorker;
 
 static McWorker *mc_w;  // this worker's slot
@@ -154,27 +153,31 @@ static int mc_case_parse(const char *s, McCase *c) {
 }
 
 // ---- known findings (read-only file; loaded once at start)
-#define MC_MAXKNOWN 64
-static char mc_known_key[MC_MAXKNOWN][1024];
-static char mc_known_text[MC_MAXKNOWN][512];
+#define MC_MAXKNOWN 20000
+static char **mc_known_key;
+static char **mc_known_text;
+static char *mc_known_hit;  // shared between workers
 static int mc_nknown = 0;
 static void mc_case_str(const McCase *c, char *buf, size_t n);
 static void mc_load_known(void) {
     FILE *f = fopen("/verif/known_findings.txt", "r");
     if (!f) return;
     char line[4096], pat[128];
+    mc_known_key = calloc(MC_MAXKNOWN, sizeof(char *));
+    mc_known_text = calloc(MC_MAXKNOWN, sizeof(char *));
     snprintf(pat, sizeof pat, "finding: property=%s key=\"", MC_PROPERTY);
     while (fgets(line, sizeof line, f) && mc_nknown < MC_MAXKNOWN) {
         if (strncmp(line, pat, strlen(pat))) continue;
         char *k = line + strlen(pat), *e = strchr(k, '"');
         if (!e) continue;
         *e = 0;
-        snprintf(mc_known_key[mc_nknown], 1024, "%s", k);
+        mc_known_key[mc_nknown] = strdup(k);
         e[1 + strcspn(e + 1, "\n")] = 0;
-        snprintf(mc_known_text[mc_nknown], 512, "%s", e + 1);
+        mc_known_text[mc_nknown] = strdup(e + 1);
         mc_nknown++;
     }
     fclose(f);
+    mc_known_hit = mmap(NULL, MC_MAXKNOWN, PROT_READ | PROT_WRITE, MAP_SHARED | MAP_ANONYMOUS, -1, 0);
 }
 
 // ---- called from op functions
@@ -187,12 +190,21 @@ static void mc_fail(const char *fmt, ...) {
         mc_case_str(&w->cur, key, sizeof key);
         for (int i = 0; i < mc_nknown; i++)
             if (!strcmp(key, mc_known_key[i])) {
-                w->known_hit[i] = 1;
+                mc_known_hit[i] = 1;
                 return;
             }
     }
     w->cur_failed = 1;
     w->nviol_total++;
+    if (getenv("VERIF_DUMPALL")) {
+        char key[1024], m[MC_MSG];
+        va_list ap2;
+        va_start(ap2, fmt);
+        vsnprintf(m, sizeof m, fmt, ap2);
+        va_end(ap2);
+        mc_case_str(&w->cur, key, sizeof key);
+        fprintf(stderr, "RAW key=\"%s\" :: %s\n", key, m);
+    }
     va_list ap;
     va_start(ap, fmt);
     if (mc_replaying) {
@@ -525,9 +537,7 @@ static int mc_finish(void) {
     snprintf(dir, sizeof dir, "replay/%s", MC_PROPERTY);
     char key[2048], msg[MC_MSG];
     for (int k = 0; k < mc_nknown; k++) {
-        int hit = 0;
-        for (int i = 0; i < MC_MAXW; i++) hit |= mc_workers[i].known_hit[k];
-        if (hit) {
+        if (mc_known_hit[k]) {
             printf("KNOWN-FINDING: property=%s key=\"%s\"%s\n", MC_PROPERTY, mc_known_key[k], mc_known_text[k]);
             nknown++;
         }
